@@ -486,4 +486,273 @@ Proof.
   - destruct (timer_expired _ _); [apply Gg; reflexivity|apply G_refl].
 Qed.
 
+(* ------------------------------------------------------------------ death *)
+(* just_before_death: the state and the send side are kept; at most one datagram is added, the FIN of
+   the error path (only for an error in a state before our own FIN), numbered seq_nr *)
+Lemma jbd_spec (s : vsock) e :
+  let s' := just_before_death s e in
+  v_state s' = v_state s /\ v_segs s' = v_segs s /\ ring (v_tx s') = ring (v_tx s) /\
+  v_inbox s' = v_inbox s /\ v_inbox_closed s' = v_inbox_closed s /\
+  v_t_syn_ack_resend s' = v_t_syn_ack_resend s /\
+  (v_out s' = v_out s \/
+   (is_local_fin_or_later (v_state s) = false /\ e <> None /\
+    exists p, v_out s' = p :: v_out s /\ ch_type (p_hdr p) = ST_FIN /\ ch_seq (p_hdr p) = v_seq_nr s)).
+Proof.
+  unfold just_before_death. cbv zeta.
+  match goal with |- context [mark_both_closed ?x] =>
+    assert (H1 : v_state x = v_state s /\ v_segs x = v_segs s /\ ring (v_tx x) = ring (v_tx s) /\
+                 v_inbox x = v_inbox s /\ v_inbox_closed x = v_inbox_closed s /\
+                 v_t_syn_ack_resend x = v_t_syn_ack_resend s /\ v_out x = v_out s /\ v_seq_nr x = v_seq_nr s);
+    [|revert H1; generalize x; intros s1 (A1 & A2 & A3 & A4 & A5 & A6 & A7 & A8)] end.
+  { destruct e; [|repeat split]. unfold rx_enqueue_error, add_wakes. vsimpl. repeat split. }
+  assert (H2 : v_state (mark_both_closed s1) = v_state s /\ v_segs (mark_both_closed s1) = v_segs s /\
+               ring (v_tx (mark_both_closed s1)) = ring (v_tx s) /\
+               v_inbox (mark_both_closed s1) = v_inbox s /\
+               v_inbox_closed (mark_both_closed s1) = v_inbox_closed s /\
+               v_t_syn_ack_resend (mark_both_closed s1) = v_t_syn_ack_resend s /\
+               v_out (mark_both_closed s1) = v_out s /\ v_seq_nr (mark_both_closed s1) = v_seq_nr s).
+  { unfold mark_both_closed. destruct (rx_mark_vsock_closed (v_rx s1)) as [rx1 w1].
+    unfold mark_vsock_closed, add_wakes. vsimpl. cbn [ring upd]. repeat split; assumption. }
+  revert H2. generalize (mark_both_closed s1). intros s2 (B1 & B2 & B3 & B4 & B5 & B6 & B7 & B8).
+  destruct e as [err|]; [|repeat split; auto].
+  destruct (negb (is_local_fin_or_later (v_state s2))) eqn:El; [|repeat split; auto].
+  assert (Hl : is_local_fin_or_later (v_state s) = false) by (rewrite <- B1; apply negb_true_iff; exact El).
+  set (s3 := set_seq_nr s2 (wadd16 (v_seq_nr s2) 1)).
+  set (h := hdr_with (outgoing_header s2) ST_FIN (v_seq_nr s2) None).
+  pose proof (send_control_packet_fields s3 h) as Hf.
+  assert (Hout : forall s4 b, send_control_packet s3 h = SOk s4 b ->
+            v_out s4 = v_out s3 \/ exists p, v_out s4 = p :: v_out s3 /\ ch_type (p_hdr p) = ST_FIN /\
+                                              ch_seq (p_hdr p) = v_seq_nr s2).
+  { intros s4 b. unfold send_control_packet. destruct (v_transport_pending s3).
+    { intro H; injection H as <- _. left; reflexivity. }
+    destruct (next_send s3 _) as [sx o] eqn:En. apply next_send_same in En.
+    destruct o; try discriminate; intro H; injection H as <- _.
+    - right. eexists. unfold on_packet_sent, emit. destruct En as [->|[r ->]]; vsimpl;
+        (split; [reflexivity|split; reflexivity]).
+    - left. destruct En as [->|[r ->]]; reflexivity. }
+  assert (Herr : forall s4 e4, send_control_packet s3 h = SErr s4 e4 -> v_out s4 = v_out s3).
+  { intros s4 e4 H. eapply send_control_packet_out_noemit. right. eexists; exact H. }
+  assert (R3 : ring (v_tx s3) = ring (v_tx s) /\ v_inbox s3 = v_inbox s /\ v_inbox_closed s3 = v_inbox_closed s /\
+               v_t_syn_ack_resend s3 = v_t_syn_ack_resend s /\ v_out s3 = v_out s) by (unfold s3; vsimpl; auto).
+  destruct R3 as (R1 & R2 & R3 & R4 & R5).
+  assert (Hfr : forall s4 : vsock, (v_rx s4 = v_rx s3 /\ v_tx s4 = v_tx s3 /\ v_state s4 = v_state s3 /\
+                            v_wakes s4 = v_wakes s3 /\ v_seq_nr s4 = v_seq_nr s3 /\ v_segs s4 = v_segs s3) ->
+                v_state s4 = v_state s /\ v_segs s4 = v_segs s /\ ring (v_tx s4) = ring (v_tx s)).
+  { intros s4 (_ & F2 & F3 & _ & _ & F6). rewrite F2, F3, F6. unfold s3; vsimpl. auto. }
+  destruct (send_control_packet s3 h) as [s4 b|s4 e4|] eqn:Es.
+  - destruct (Hfr s4 Hf) as (C1 & C2 & C3).
+    assert (Hin : v_inbox s4 = v_inbox s /\ v_inbox_closed s4 = v_inbox_closed s /\
+                  v_t_syn_ack_resend s4 = v_t_syn_ack_resend s).
+    { revert Es. unfold send_control_packet. destruct (v_transport_pending s3).
+      { intro H; injection H as <- _. auto. }
+      destruct (next_send s3 _) as [sx o] eqn:En. apply next_send_same in En.
+      destruct o; try discriminate; intro H; injection H as <- _;
+        destruct En as [->|[r ->]]; unfold on_packet_sent, emit; vsimpl; auto. }
+    destruct Hin as (D1 & D2 & D3).
+    repeat (split; [assumption|]).
+    destruct (Hout s4 b eq_refl) as [Ho|(p & Ho & Hp1 & Hp2)].
+    + left. congruence.
+    + right. split; [exact Hl|]. split; [discriminate|]. exists p. rewrite Ho, R5. repeat split; congruence.
+  - destruct (Hfr s4 Hf) as (C1 & C2 & C3).
+    assert (Hin : v_inbox s4 = v_inbox s /\ v_inbox_closed s4 = v_inbox_closed s /\
+                  v_t_syn_ack_resend s4 = v_t_syn_ack_resend s).
+    { revert Es. unfold send_control_packet. destruct (v_transport_pending s3); [discriminate|].
+      destruct (next_send s3 _) as [sx o] eqn:En. apply next_send_same in En.
+      destruct o; try discriminate; intro H; injection H as <- _;
+        destruct En as [->|[r ->]]; vsimpl; auto. }
+    destruct Hin as (D1 & D2 & D3).
+    repeat (split; [assumption|]). left. rewrite (Herr s4 e4 eq_refl). exact R5.
+  - unfold s3. vsimpl. repeat (split; [assumption|]). left. assumption.
+Qed.
+
+Lemma jbd_G0 (s0 s1 : vsock) e :
+  G0 s0 s1 -> (is_local_fin_or_later (v_state s1) = true \/ e = None) -> G0 s0 (just_before_death s1 e).
+Proof.
+  intros H Hc. pose proof (jbd_spec s1 e) as J. cbv zeta in J.
+  destruct J as (J1 & _ & _ & J4 & J5 & _ & J7).
+  assert (Ho : v_out (just_before_death s1 e) = v_out s1).
+  { destruct J7 as [J7|(Hl & He & _)]; [exact J7|]. destruct Hc; congruence. }
+  destruct H as (A1 & (l & A2 & A3) & A4 & A5).
+  split; [rewrite J1; exact A1|]. split; [exists l; rewrite Ho, J1; auto|].
+  split; [intro Hi; rewrite J4; auto|congruence].
+Qed.
+
+(* ------------------------------------------------------------------ poll_body, in two parts *)
+(* the end of poll_body, after maybe_send_ack *)
+Definition body_finish (s : vsock) : body_res :=
+  if state_is_closed (v_state s) (o_wait_for_last_ack (v_opts s)) then
+    BrReturn (just_before_death s None) PollReadyOk
+  else
+    let s := if is_local_fin_or_later (v_state s)
+             then set_t_inactivity s (timer_arm (v_t_inactivity s) (v_now s)
+                                        SHUTDOWN_FINAL_CHANCE_DELAY false)
+             else s in
+    let '(s, t) := next_timer_to_poll s in
+    let s := match t with
+             | Some instant => arm_in s (sat_sub instant (v_now s))
+             | None => s
+             end in
+    BrReturn s PollPending.
+
+(* from the decision to close on own initiative on *)
+Definition body_back (s : vsock) : body_res :=
+  let s := if should_close_on_own_initiative s then transition_to_fin_wait_1 s else s in
+  pend (maybe_send_fin s) (fun s _ =>
+  pend (maybe_send_ack s) (fun s _ => body_finish s)).
+
+(* everything before, with the rest as a continuation *)
+Definition body_front (k : vsock -> body_res) (s0 : vsock) : body_res :=
+  pend (maybe_send_syn_ack (body_start s0)) (fun s _ =>
+  pend (if immediate_ack_to_transmit s then send_ack s else SOk s false) (fun s _ =>
+  pend (process_all_incoming_messages cci s) (fun s _ =>
+  let '(rx1, fr, w) := rx_flush (v_rx s) in
+  match fr with
+  | FlPanic => BrPanic
+  | FlOk _ =>
+    let s := add_wakes (set_rx s rx1) (rx_wakes w) in
+    if timer_expired (v_t_inactivity s) (v_now s) then die s ErrRemoteInactiveForTooLong
+    else
+    bail (split_tx_queue_into_segments cci s) (fun s _ =>
+    pend (send_tx_queue cci s) (fun s _ => k s))
+  end))).
+
+Lemma poll_body_parts s0 : poll_body cci s0 = body_front body_back s0.
+Proof. reflexivity. Qed.
+
+(* the ways out of the front part: all of them under G *)
+Definition early (s : vsock) (r : body_res) : Prop :=
+  match r with
+  | BrRestart s' => G s s'
+  | BrReturn s' PollPending => G s s'
+  | BrReturn s' (PollReadyErr e) => exists s1, G s s1 /\ s' = just_before_death s1 (Some e)
+  | BrReturn _ _ => False
+  | BrPanic => True
+  end.
+
+Lemma bail_walk {A} (P : body_res -> Prop) (s0 s : vsock) (m : step A) k :
+  G s0 s -> sGr s m -> (forall r, early s0 r -> P r) ->
+  (forall s1 a, G s0 s1 -> v_restart s1 = false -> P (k s1 a)) -> P (bail m k).
+Proof.
+  intros F Hm He Hk. unfold bail. destruct m as [s1 a|s1 e|]; cbn [sGr] in Hm.
+  - assert (F1 : G s0 s1) by (eapply G_trans; eauto).
+    destruct (v_restart s1) eqn:R; [apply He; exact F1|apply Hk; assumption].
+  - apply He. unfold die. cbn [early]. exists s1. split; [eapply G_trans; eauto|reflexivity].
+  - apply He. exact I.
+Qed.
+
+Lemma pend_walk {A} (P : body_res -> Prop) (s0 s : vsock) (m : step A) k :
+  G s0 s -> sGr s m -> (forall r, early s0 r -> P r) ->
+  (forall s1 a, G s0 s1 -> v_restart s1 = false -> v_transport_pending s1 = false -> P (k s1 a)) ->
+  P (pend m k).
+Proof.
+  intros F Hm He Hk. unfold pend. eapply bail_walk; eauto.
+  intros s1 a F1 R. destruct (v_transport_pending s1) eqn:T; [apply He; exact F1|].
+  rewrite R. apply Hk; assumption.
+Qed.
+
+Lemma body_start_G (s0 : vsock) : G s0 (body_start s0).
+Proof. unfold body_start. g_same. Qed.
+
+Lemma body_front_walk (P : body_res -> Prop) k (s0 : vsock) :
+  (forall r, early s0 r -> P r) ->
+  (forall s6, G s0 s6 -> v_restart s6 = false -> v_transport_pending s6 = false -> P (k s6)) ->
+  P (body_front k s0).
+Proof.
+  intros He Hk. unfold body_front.
+  eapply pend_walk; [apply body_start_G|apply sG_sGr, maybe_send_syn_ack_G|exact He|]. intros s1 _ F1 _ _.
+  eapply pend_walk; [exact F1| |exact He|].
+  { destruct (immediate_ack_to_transmit s1); [apply sG_sGr, send_ack_G|apply G_refl]. }
+  intros s2 _ F2 _ _.
+  eapply pend_walk; [exact F2|apply process_all_G|exact He|]. intros s3 _ F3 _ _.
+  destruct (rx_flush (v_rx s3)) as [[rx1 fr] w]. destruct fr; cbv beta iota zeta; [|apply He; exact I].
+  assert (F4 : G s0 (add_wakes (set_rx s3 rx1) (rx_wakes w))).
+  { eapply G_trans; [exact F3|]. eapply G_trans; [|apply add_wakes_G]. g_same. }
+  abs_as (add_wakes (set_rx s3 rx1) (rx_wakes w)) F4 s4.
+  destruct (timer_expired _ _).
+  { apply He. unfold die. cbn [early]. exists s4. split; [exact F4|reflexivity]. }
+  eapply bail_walk; [exact F4|apply sG_sGr, split_G|exact He|]. intros s5 _ F5 _.
+  eapply pend_walk; [exact F5|apply sG_sGr, send_tx_queue_G|exact He|]. intros s6 _ F6 R6 T6.
+  apply Hk; assumption.
+Qed.
+
+(* what a whole poll_body does, under G0 *)
+Definition bG0 (s0 : vsock) (r : body_res) : Prop :=
+  match r with
+  | BrRestart s' => G0 s0 s'
+  | BrReturn s' PollPending => G0 s0 s'
+  | BrReturn s' PollReadyOk => exists s1, G0 s0 s1 /\ s' = just_before_death s1 None
+  | BrReturn s' (PollReadyErr e) => exists s1, G0 s0 s1 /\ s' = just_before_death s1 (Some e)
+  | BrReturn _ PollPanic => False
+  | BrPanic => True
+  end.
+
+Lemma early_bG0 s0 r : early s0 r -> bG0 s0 r.
+Proof.
+  destruct r as [s' [| |e|]|s'|]; cbn [early bG0]; auto using G_G0; try tauto.
+  intros (s1 & H & E). exists s1. split; [apply G_G0; exact H|exact E].
+Qed.
+
+Definition sG0 {A} (s : vsock) (m : step A) : Prop :=
+  match m with SOk s' _ | SErr s' _ => G0 s s' | SPanic => True end.
+
+Lemma sG_sG0 {A} s (m : step A) : sG s m -> sG0 s m.
+Proof. destruct m; cbn [sG sG0]; [apply G_G0|intros [H _]; apply G_G0; exact H|auto]. Qed.
+
+Lemma pend_G0 {A} (s0 s : vsock) (m : step A) k :
+  G0 s0 s -> sG0 s m -> (forall s1 a, G0 s0 s1 -> bG0 s0 (k s1 a)) -> bG0 s0 (pend m k).
+Proof.
+  intros F Hm Hk. unfold pend, bail. destruct m as [s1 a|s1 e|]; cbn [sG0] in Hm; [| |exact I].
+  - assert (F1 : G0 s0 s1) by (eapply G0_trans; eauto).
+    destruct (v_restart s1); [exact F1|]. destruct (v_transport_pending s1); [exact F1|].
+    apply Hk; exact F1.
+  - unfold die. cbn [bG0]. exists s1. split; [eapply G0_trans; eauto|reflexivity].
+Qed.
+
+Lemma body_finish_G0 (s0 s : vsock) : G0 s0 s -> bG0 s0 (body_finish s).
+Proof.
+  intro F. unfold body_finish. destruct (state_is_closed _ _).
+  { cbn [bG0]. exists s. auto. }
+  match goal with |- context [next_timer_to_poll ?x] => assert (F10 : G0 s0 x); [|abs_as x F10 s10] end.
+  { destruct (is_local_fin_or_later (v_state s)); exact F. }
+  unfold next_timer_to_poll, arm_in, add_wakes. destruct (v_transport_pending s10).
+  - destruct (v_t_inactivity s10); cbn [bG0]; [|exact F10].
+    destruct (_ <=? _); exact F10.
+  - match goal with |- bG0 _ (BrReturn match ?t with _ => _ end _) => destruct t end; cbn [bG0];
+      [destruct (_ <=? _)|]; exact F10.
+Qed.
+
+Lemma body_back_G0 (s0 s6 : vsock) : G0 s0 s6 -> bG0 s0 (body_back s6).
+Proof.
+  intro F6. unfold body_back.
+  assert (F7 : G0 s0 (if should_close_on_own_initiative s6 then transition_to_fin_wait_1 s6 else s6)).
+  { destruct (should_close_on_own_initiative s6); [eapply G0_trans; [exact F6|apply transition_G0]|exact F6]. }
+  eapply pend_G0; [exact F7|apply sG_sG0, maybe_send_fin_G|]. intros s8 _ F8.
+  eapply pend_G0; [exact F8|apply sG_sG0, maybe_send_ack_G|]. intros s9 _ F9.
+  apply body_finish_G0. exact F9.
+Qed.
+
+Theorem poll_body_G0 (s0 : vsock) : bG0 s0 (poll_body cci s0).
+Proof.
+  rewrite poll_body_parts. apply body_front_walk.
+  - apply early_bG0.
+  - intros s6 F6 _ _. apply body_back_G0. apply G_G0. exact F6.
+Qed.
+
+(* the restart loop *)
+Lemma poll_loop_ind (I : vsock -> Prop) (Q : vsock -> poll_result -> Prop) :
+  (forall s, I s -> Q s PollPanic) ->
+  (forall s, I s -> match poll_body cci s with
+                    | BrReturn s' r => Q s' r
+                    | BrRestart s' => I s'
+                    | BrPanic => True
+                    end) ->
+  forall fuel s, I s -> Q (fst (poll_loop cci fuel s)) (snd (poll_loop cci fuel s)).
+Proof.
+  intros Hp Hb. induction fuel as [|fuel IH]; intros s Hi; cbn [poll_loop fst snd]; [apply Hp; exact Hi|].
+  specialize (Hb s Hi). destruct (poll_body cci s) as [s' r|s'|]; cbn [fst snd].
+  - exact Hb.
+  - apply IH. exact Hb.
+  - apply Hp. exact Hi.
+Qed.
+
 End WithCC.
